@@ -18,7 +18,7 @@ def how(v):
 
 
 rows = []
-for r in sorted(res, key=lambda r: (r['id'].replace('R2_', '').replace('REVERT_', ''), r['id'])):
+for r in sorted(res, key=lambda r: (re.sub(r'^(R\d_|REVERT_)', '', r['id']), r['id'])):
     d = os.path.join(S, r['id'])
     try:
         meta = json.load(open(os.path.join(d, 'meta.json')))
